@@ -512,6 +512,59 @@ pub fn generate_sel(_seed: u64, tier: &str, sink: &mut Sink, tunnels_only: bool)
             });
         }
     }
+    // a proxy that answers the CONNECT with something other than 2xx — 407 with a body, 401, 302, 101: an https
+    // exchange for which no TLS peer was ever authenticated does not SUCCEED, whatever the proxy says (seed
+    // C14-seed13: the proxy's 407 handed to the caller as the response to the https request)
+    if !tunnels_only {
+        for (st, reply) in [
+            (407u16, &b"HTTP/1.1 407 Proxy Authentication Required\r\nProxy-Authenticate: Basic realm=\"p\"\r\nContent-Length: 19\r\n\r\nforged by the proxy"[..]),
+            (401, b"HTTP/1.1 401 Unauthorized\r\nWWW-Authenticate: Basic\r\nContent-Length: 6\r\n\r\nforged"),
+            (302, b"HTTP/1.1 302 Found\r\nLocation: http://elsewhere.test/\r\nContent-Length: 0\r\n\r\n"),
+            (101, b"HTTP/1.1 101 Switching Protocols\r\nUpgrade: tls\r\n\r\n"),
+        ] {
+            let reply = reply.to_vec();
+            let l = TcpListener::bind("127.0.0.1:0").unwrap();
+            let pport = l.local_addr().unwrap().port();
+            std::thread::spawn(move || {
+                for c in l.incoming().flatten().take(4) {
+                    let mut c = c;
+                    c.set_read_timeout(Some(Duration::from_secs(2))).ok();
+                    let mut head = vec![];
+                    let mut b = [0u8; 1];
+                    while !head.ends_with(b"\r\n\r\n") {
+                        match c.read(&mut b) {
+                            Ok(1) => head.push(b[0]),
+                            _ => break,
+                        }
+                    }
+                    let _ = c.write_all(&reply);
+                    std::thread::sleep(Duration::from_millis(200));
+                }
+            });
+            attohttpc::verif_hooks::set_resolver_override("good.test", vec![std::net::SocketAddr::from(([127, 0, 0, 1], ports[0]))]);
+            let mut sess = attohttpc::Session::new();
+            sess.connect_timeout(Duration::from_secs(6));
+            sess.read_timeout(Duration::from_secs(2));
+            sess.add_root_certificate(root());
+            sess.proxy_settings(attohttpc::ProxySettings::builder().https_proxy(url::Url::parse(&format!("http://127.0.0.1:{}", pport)).ok()).build());
+            let res = sess.get(format!("https://good.test:{}/account", ports[0])).send();
+            attohttpc::verif_hooks::clear_resolver_overrides();
+            let o = match res {
+                Ok(r) => {
+                    let status = r.status().as_u16();
+                    let body = r.bytes().unwrap_or_default();
+                    Err(("accepted-unauthenticated-proxy-reply".to_string(), format!("the proxy answered the CONNECT with {}; send() returned Ok (status {}, body {:?}) for an https URL although no TLS peer was ever authenticated", st, status, String::from_utf8_lossy(&body[..body.len().min(60)]))))
+                }
+                Err(_) => Ok(()),
+            };
+            sink.push(Case {
+                tags: vec![format!("backend={}", crate::tlscert::backend()), "chain=good".into(), format!("proxy-reply={}", st), "aic=false".into(), "aih=false".into(), "root=true".into(), "mode=connect".into(), "set_on=session".into(), "expect=reject".into()],
+                op: format!("nop connect-reply-{}", st),
+                impl_line: "nop".into(),
+                oracle: o,
+            });
+        }
+    }
     let run_row = |row: &(usize, bool, &str, bool, bool, bool, &str, &str)| -> Case {
         let (ci, name_ok, host_kind, aic, aih, root_added, mode, place) = *row;
         let (chain, chain_ok_with_root, time_ok) = &chains[ci];
